@@ -76,6 +76,26 @@ add('C15', 'TLA+ spec Cache (memoisation automata with the code\'s hit condition
     'operation alphabet does not reach is not observed.',
     'DESIGN.md section 5 C15')
 
+add('C04', 'TLA+ spec Dofs (NumberDofsImpl transcription of Dofs.__init__ + relational clauses): TLC model checking over '
+    'every admissible DOF signature x universe meshes + replay of the TLC-enumerated (mesh, signature) pairs on the real '
+    'Dofs/CellBasis with signature-only elements + TLC trace validation of the tables recorded for every exported '
+    'element class and wrapper; sparsity of assembled matrices',
+    'TLC decides Contiguous, AttachedUnique, SharedIff, InteriorUnique, RowOrder, TableShapes, DofLocsCoherent (exact, '
+    'or fixed point 2^-40 for non-dyadic reference locations), ShapeOK and SparsityLocal on the model for every signature '
+    'with counts in {0,1,2} and on the tables the real code reports (universe, renumbered, second-order and integer '
+    'Delaunay meshes; all exported elements incl. vector/composite/DG wrappers). Model-vs-code drift 0.',
+    'DESIGN.md section 5 C04')
+add('C07', 'TLA+ spec Dofs (closure semantics of get_dofs, selector normalisation, name -> row translation, DofsView '
+    'algebra): TLC model checking over every facet / cell / vertex subset x named signatures x skip/keep sets '
+    '(pre-repair name offsets refuted) + replay on the real Basis.get_dofs in all equivalent selector forms + TLC trace '
+    'validation; TraceSupport law in fixed point',
+    'TLC decides ExactClosure, ArgumentFreeIsBoundary, SkipFilter, NameFilter, ByKindNames, UnionView, '
+    'ComplementIsComplement on the model exhaustively for the small universes, and on the real code additionally '
+    'SelectorFormsAgree (index arrays, midpoint predicates, tag names, collections, elements=, nodes=) and TraceSupport '
+    '(DOFs with non-zero trace on the selected facets are returned; Lagrange H1 by value, RT/BDM normal, Nedelec '
+    'tangential component).',
+    'DESIGN.md section 5 C07')
+
 NOT_YET = "check not built yet (implementation in progress; see DESIGN.md section 8 for the plan)"
 NA = {'C09': "no state, transitions or discrete core: ~70 closed-form derivative formulas; TLA+/TLC cannot express "
              "real differentiation except as a numeric harness with TLC as calculator (DESIGN.md section 6)"}
